@@ -106,11 +106,47 @@ fn check<S: Sig + Copy + std::fmt::Debug, E: ShardEdge<S, 3>>(ctx: &mut Ctx, nam
                 }
                 let step = if n > 1_000_000 { 5 } else if n > 2500 { 3 } else { 1 };
                 let mut h = 0u64;
-                for (ia, &a) in vs.iter().enumerate() {
-                    for (ib, &b) in vs.iter().enumerate() {
-                        if (ia + ib) % step != 0 {
+                // Signatures at the steps of the fixed-point inversions: a vertex is floor(x M / 2^64) (or 2^32) for
+                // some word x derived from the signature by shifts/rotations involving the shard bits, and M one of
+                // the cell counts of the geometry. Values of x within a few units (at least the number of shards)
+                // of a step k 2^64 / M, pulled back through every candidate derivation, for k at both ends and the
+                // middle. This depends only on the public geometry, not on which derivation the code uses.
+                let seg = nv / (e.num_sort_keys() + 2).max(1);
+                let mut ms: Vec<u128> = vec![nv as u128, nv.saturating_sub(2 * seg) as u128, (nv / 3) as u128, seg as u128];
+                ms.retain(|&m| m >= 2);
+                ms.sort();
+                ms.dedup();
+                let mut xs: Vec<u64> = vec![];
+                for &m in &ms {
+                    for k in [1u128, 2, 3, m / 2, m - 2, m - 1] {
+                        if k == 0 || k >= m {
                             continue;
                         }
+                        let b64 = ((k << 64) + m - 1) / m;
+                        let b32 = ((k << 32) + m - 1) / m;
+                        let dmax = (s as i64 + 2).min(18);
+                        for d in -2..=dmax {
+                            let y = (b64 as i128 + d as i128).clamp(0, u64::MAX as i128) as u64;
+                            xs.push(y);
+                            let y32 = (b32 as i64 + d).clamp(0, u32::MAX as i64) as u64;
+                            xs.extend([y32 << 32, y32 << 32 | 0xFFFF_FFFF, y32, 0xFFFF_FFFF_0000_0000 | y32]);
+                        }
+                    }
+                }
+                let mut pulled: Vec<u64> = vec![];
+                for &y in &xs {
+                    for j in [0, hb, hb + 1] {
+                        pulled.extend([y.rotate_left(j), y.rotate_right(j), y.checked_shr(j).unwrap_or(0), y.checked_shr(j).unwrap_or(0) | (mask.checked_shl(64 - j).unwrap_or(0))]);
+                    }
+                }
+                pulled.sort();
+                pulled.dedup();
+                ctx.add("step_boundary_signature_words", pulled.len() as u64);
+                let bs = [0u64, 1, u64::MAX, 0x5555_5555_5555_5555, 1 << 32, (1 << 32) - 1];
+                let pairs = vs.iter().enumerate().flat_map(|(ia, &a)| vs.iter().enumerate().filter(move |(ib, _)| (ia + ib) % step == 0).map(move |(_, &b)| (a, b)));
+                let extra = pulled.iter().enumerate().flat_map(|(ia, &a)| bs.iter().enumerate().filter(move |(ib, _)| (ia + ib) % step == 0).map(move |(_, &b)| (a, b)));
+                {
+                    for (a, b) in pairs.chain(extra) {
                         let sig = mk(a, b);
                         ctx.sub_evaluations += 1;
                         let ed = e.edge(sig);
